@@ -425,3 +425,20 @@ def run(ck, prog):
 
 
 EXPLANATION += (' (F) In KMeans::fit no exit of the Lloyd loop is reachable from the assignment step without passing the centroid update (E2-order): the returned centroids belong to the returned assignment, also when max_iter is exhausted.')
+
+
+# ------------------------------------------------------------------ E4: no distance / distortion is compared with an absolute machine constant
+_run_pre_e4km = run
+
+
+def run(ck, prog):
+    _run_pre_e4km(ck, prog)
+    from props import C01
+    C01.run_e4(ck, prog, r"^cluster::kmeans::KMeans::<T>::(fit|predict|kmeans_plus_plus)$|^algorithm::neighbour::bbd_tree::BBDTree::<T>::(filter|prune)$",
+               ["KMeans::<T>::fit", "KMeans::<T>::predict", "BBDTree::<T>::filter", "BBDTree::<T>::prune"], floor=4)
+
+
+EXPLANATION += (" Scale (E4): in KMeans::{fit, predict, kmeans_plus_plus} and BBDTree::{filter, prune} no distance, distortion or coordinate is "
+                "compared with a non-zero machine constant ('nearest' and 'not worse' are comparisons between data-derived values; an "
+                "`<= epsilon` early exit returns the first centroid for small-magnitude data).")
+TECHNIQUE += "; scale-homogeneity classification of the comparisons in fit/predict/filter/prune"
